@@ -321,7 +321,11 @@ func (c *Ctx) Finish(verifDir, tier string, seed int64, started time.Time, findi
 		"seed":        seed,
 		"level":       "other",
 		"coverage":    cov,
-		"assumptions": c.Assume,
+		"assumptions": append([]string{
+			"go/types and go/ssa (x/tools v0.29.0) represent the program faithfully; configuration linux/amd64 without build tags, non-test files",
+			"lock objects are identified by mutex field (one object of each guarded type per function)",
+			"test override hooks (establishRegionOverride, sleepAndIncreaseBackoffOverride) are nil in production",
+		}, c.Assume...),
 		"wall_s":      time.Since(started).Seconds(),
 		"violations":  res.Violations,
 	}
